@@ -1524,6 +1524,8 @@ impl<T> Arena<T> {
             // @ob C12.only_a_node_that_is_out_of_every_tree_is_freed C12 C04 C01
             no_links(old(self).at(id)),
         ensures
+            // @ob C04.free_node_changes_no_link_and_no_other_generation C04 C12
+            free_frame(old(self).nodes@, final(self).nodes@, id.idx()),
             // @ob C01.links_well_formed@free_node C01 C12
             links_ok(final(self).nodes@),
             // @ob C02.acyclic@free_node C02 C01
@@ -1535,8 +1537,6 @@ impl<T> Arena<T> {
             // @ob C02.free_node_keeps_rank_witness C02
             forall|w: Ranks| ranked(old(self).nodes@, w) ==> ranked(final(self).nodes@, w),
             final(self).nodes@.len() == old(self).nodes@.len(),
-            // @ob C04.free_node_changes_no_link_and_no_other_generation C04 C12
-            free_frame(old(self).nodes@, final(self).nodes@, id.idx()),
             // @ob C06.free_node_marks_removed C06 C12
             final(self).at(id).stamp.0 == -old(self).at(id).stamp.0 - 1,
             // @ob C08.free_node_touches_only_the_freed_payload C08 C04
